@@ -236,14 +236,21 @@ class Rounding:
         tol = None if tolnone else ctx.int('tol')
         received = []
 
-        def f(x, y=None):
-            received.append((x, y))
-            return None
+        if cfg.get('pname'):
+            # the second parameter is named like a parameter of klepto's own rounding plumbing (tol, deep, args, kwds, func)
+            ns = {'received': received}
+            exec('def f(x, %s=None):\n    received.append((x, %s))\n    return None\n' % (cfg['pname'], cfg['pname']), ns)
+            f = ns['f']
+        else:
+            def f(x, y=None):
+                received.append((x, y))
+                return None
+        yname = cfg.get('pname') or 'y'
         L = lambda: new_leaf(ctx)
         x = STRUCTS[cfg['struct']](L)
         y = x if cfg['struct'] == 'alias_args' else L()        # f(x, x): the same object bound to two parameters
         callform = ctx.choice(2, 'form')
-        args, kw = ((x,), {'y': y}) if callform == 0 else ((x, y), {})
+        args, kw = ((x,), {yname: y}) if callform == 0 else ((x, y), {})
         n_apps = len(ctx.apps) if not ctx.concrete() else 0
         if via in ('simple_round', 'shallow_round', 'deep_round'):
             dec = getattr(KR, via)(tol=tol)
@@ -291,14 +298,27 @@ class Rounding:
                 ctx.check(len(ctx.apps) == n_apps, 'C12:tol-none', {'kind': 'tol=None rounded something'})
         else:
             ox, oy = oracle(x, tol, mode), oracle(y, tol, mode)
-            oargs, okw = ((ox,), {'y': oy}) if callform == 0 else ((ox, oy), {})
+            oargs, okw = ((ox,), {yname: oy}) if callform == 0 else ((ox, oy), {})
             k0 = key0(*oargs, **okw)
             r = (k == k0)
             if hasattr(x, '_fields') and not bool(r):
-                aargs, akw = ((x,), {'y': oy}) if callform == 0 else ((x, oy), {})
+                aargs, akw = ((x,), {yname: oy}) if callform == 0 else ((x, oy), {})
                 r = (k == key0(*aargs, **akw))
             ctx.check(r if not canary else Not(r), 'C12:key',
                       {'kind': 'key differs from the key of the oracle-rounded arguments'})
+        if via == 'keygen':
+            # klepto.keygen objects: g(*args) records the call, g.key() gives the key, g.call() evaluates - with the originals
+            try:
+                g(*args, **kw)
+                g.key()
+                g.call()
+            except (PathPruned, Inconclusive):
+                raise
+            except Exception as e:
+                ctx.check(False, 'C12:no-exception', {'kind': 'keygen call() raised %s' % type(e).__name__})
+                return
+            gx, gy = received[-1]
+            ctx.check(gx is x and gy is y, 'C12:originals', {'kind': 'the function did not receive the original arguments'})
         if via != 'keygen':
             try:
                 g(*args, **kw)
@@ -327,6 +347,8 @@ def plan(prop, tier):
     def add(**kw):
         kw['name'] = 'round/%s/%s/%s/%s%s%s' % (kw.get('via', 'inf'), kw.get('module', 'std'), kw['mode'], kw['struct'],
                                               '/' + kw['keymap'] if kw.get('keymap') else '', '/tol=None' if kw.get('tol') == 'none' else '')
+        if kw.get('pname'):
+            kw['name'] += '/param=' + kw['pname']
         if kw.get('canary'):
             kw['name'] = 'canary:' + kw['name']
         kw['props'] = ['C12']
@@ -345,5 +367,12 @@ def plan(prop, tier):
             add(via=via, mode={'simple_round': 'simple', 'shallow_round': 'shallow', 'deep_round': 'deep'}[via], struct=s)
             if not q:
                 add(via=via, mode='x', struct=s, tol='none')
+    for pn in ('tol', 'deep', 'args', 'kwds', 'func', 'f'):
+        for mode in ('simple', 'deep'):
+            for via in ('inf', 'keygen', 'lru') + (() if q else ('lfu', 'no')):
+                for m in (('std',) if via == 'keygen' else ('std', 'safe')):
+                    add(via=via, module=m, mode=mode, struct='leaf', pname=pn)
+        for via in ('simple_round', 'shallow_round', 'deep_round'):
+            add(via=via, mode={'simple_round': 'simple', 'shallow_round': 'shallow', 'deep_round': 'deep'}[via], struct='leaf', pname=pn)
     add(via='inf', module='std', mode='deep', struct='list', canary=True)
     return cfgs
